@@ -114,10 +114,10 @@ def main():
         "enumerated_exhaustively": {
             "tables_vs_predicate_bruteforce": {"names": len(tables.get("ok", [])), "scalar_values_each": n_scalars, "mismatches": tables.get("mismatch", []),
                                                "unicode_version": tables.get("unicode_version")},
-            "macro_expanded_lexers": {"classes": len(lexinfo.get("ok", [])), "shapes_per_class": 3, "scalar_values_each": n_scalars,
-                                      "evaluations": len(lexinfo.get("ok", [])) * 3 * n_scalars, "mismatches": lexinfo.get("mismatch", [])[:20],
+            "macro_expanded_lexers": {"classes": len(lexinfo.get("ok", [])), "shapes_per_class": 5, "scalar_values_each": n_scalars,
+                                      "evaluations": len(lexinfo.get("ok", [])) * 5 * n_scalars, "mismatches": lexinfo.get("mismatch", [])[:20],
                                       "build_s": lexinfo.get("build_s"), "run_s": lexinfo.get("run_s"),
-                                      "shapes": "arms: `$$c = 1` (one arm per range); guard: `($$c) '!' = 1` (|| chain for <= 9 ranges, binary-search table above); looped: `($$c)+ = 1` (same guard in a non-inlined state)",
+                                      "shapes": "arms: `$$c = 1` (one arm per range); guard: `($$c) '!' = 1` (|| chain for <= 9 ranges, binary-search table above); looped: `($$c)+ = 1` (same guard in a non-inlined state); ctx: `'a' > ($$c) = 1` (accepting ranges of a right-context automaton); ctx2: `'a' > (($$c) '!') = 1`",
                                       "combined_classes": [c[1] for c in c13gen.COMBINED]},
         },
         "exhaustive": True,
